@@ -232,10 +232,17 @@ func checkRetention(e *Env, c *CommitRec, full []bson.D, d int) *Violation {
 	if e.maxWall.After(hi) {
 		hi = e.maxWall
 	}
+	// exact age from the event's own wallTime (millisecond precision): the library compares whole seconds, which
+	// can only keep an event longer than its exact age demands, never shorter - an event removed by the age
+	// clause is at least minAge old by the highest clock reading the library can have seen
 	ageHi := func(i int) time.Duration {
+		if w, ok := model.Get(full[i], "wallTime").(primitive.DateTime); ok {
+			return hi.Sub(w.Time())
+		}
 		ts, _ := eventTS(full[i])
 		return hi.Sub(time.Unix(int64(ts.T), 0))
 	}
+	const tolExact = 5 * time.Millisecond
 	const tol = 1500 * time.Millisecond
 	if d > 0 {
 		e.probe("retention-trimmed")
@@ -244,7 +251,7 @@ func checkRetention(e *Env, c *CommitRec, full []bson.D, d int) *Violation {
 		if i >= len(full)-minSize {
 			return violation("C08", "retention-removed-protected", "min-size", fmt.Sprintf("commit %d: event %d of %d was removed although the newest %d events are protected", c.Seq, i, len(full), minSize))
 		}
-		if minAge > 0 && ageHi(i) < minAge-tol {
+		if minAge > 0 && ageHi(i) < minAge-tolExact {
 			return violation("C08", "retention-removed-protected", "min-age", fmt.Sprintf("commit %d: event %d (age %v) was removed although events younger than %v are protected", c.Seq, i, ageHi(i), minAge))
 		}
 	}
